@@ -1,5 +1,7 @@
 #[macro_use]
 pub mod common;
+pub mod c01;
+pub mod c02;
 pub mod c05;
 pub mod c07;
 pub mod c08;
@@ -21,7 +23,9 @@ use crate::engine::CheckDef;
 
 pub fn all() -> Vec<(&'static str, fn() -> Vec<CheckDef>)> {
     vec![
-        ("C03", chist::c03_checks as fn() -> Vec<CheckDef>),
+        ("C01", c01::checks as fn() -> Vec<CheckDef>),
+        ("C02", c02::checks),
+        ("C03", chist::c03_checks),
         ("C04", chist::c04_checks),
         ("C05", c05::checks),
         ("C07", c07::checks),
